@@ -1,13 +1,22 @@
 """C08 — the exported JSON schema is well-formed and admits every serialized valid instance.
 
-Proof obligations: Props/C08.v.  Ties to the code (all compared inside Coq):
-  1. model `to_schema` (Schema/ToSchema.v) vs the real `structure_to_schema` (JSON equality);
-  2. model `valid4` / `wf_doc` (Schema/Draft4.v), run on the REAL export parsed into the model's
-     syntax, vs the independent `jsonschema.Draft4Validator` (separate interpreter `python3-vt`);
+Proof obligations: Props/C08.v (per-declaration and class-level theorems, source ties C08_src_* over Gen/SchemaGuards.v,
+which harness/genmods/schema_guards.py regenerates from json_schema_mapping.py before every build).
+Ties to the code (all compared inside Coq):
+  1. model `to_schema` (Schema/ToSchema.v) vs the real `structure_to_schema` (JSON equality), on EVERY export of a
+     generated history of exports (first / repeated / parts first / interleaved / one shared definitions dict);
+  2. model `valid4` / `wf_doc` (Schema/Draft4.v), run on the REAL export parsed into the model's syntax, vs the
+     independent `jsonschema.Draft4Validator` (separate interpreter `python3-vt`);
   3. model serializer `ser_top` vs the real `serialize`.
 Oracle of the property itself: the independent validator on real serializer output against the real
-(dialect-translated) export, `check_schema` + $ref resolution; on the exact sub-fragment, documents near
-the schema boundary: validator-accepts must imply Deserializer-accepts."""
+(dialect-translated) export, `check_schema` + $ref resolution, for every export of the history; on the statement's
+exact sub-fragment (everything but Set / defaults / unanchored patterns / sign-only float bounds), boundary documents
+(schema-driven: every keyword contributes the points just inside and just outside, + random one-point perturbations):
+validator-accepts must imply Deserializer-accepts.
+Streams: random class environments; deterministic lattices (enum class x position; reference graph x linking
+construct x history, with class names reused across environments); extras outside the model (harness/c08extras.py).
+Failures are keyed by the smallest set of specific counterfactual repairs of the export that explains them (else by a
+generic key, which is a VIOLATION).  C08_DEBUG=1 prints the first model/implementation mismatches."""
 import copy
 import json
 import math
@@ -20,6 +29,15 @@ from harness import core
 from harness import coqemit as E
 from harness import fieldgen as G
 from harness import structgen as S
+from harness import c08enums as X
+from harness import c08extras as XT
+
+# the enum-class vocabulary of this check (this process only): mixed-in primitive types, falsy values, by-value twins
+G.ENUMS.update(X.EXTRA)
+G.BY_VALUE.update(X.BY_VALUE)
+
+X_NEAR = sorted({m.name for c in G.ENUMS.values() for m in c}) + \
+    sorted({m.value for c in G.ENUMS.values() for m in c if isinstance(m.value, str)}) + [1, 2, 3, 0, 0.5, 2.0]
 
 VT = "python3-vt"
 WORKER = os.path.join(os.path.dirname(os.path.dirname(os.path.abspath(__file__))), "c08_vt_worker.py")
@@ -55,6 +73,8 @@ def gen_sfield(rnd, depth, classes, max_depth, hashable=False, optional_ok=True)
         # is exported as maximum 2): the export is then too permissive, which oneOf/not observe.  Characterised in
         # the report; the generator keeps explicit bounds consistent with the sign.
         lo, hi = c.get("min"), c.get("max")
+        if rnd.random() < 0.4:
+            lo = hi = None      # keep the declaration as drawn (the explicit bound then replaces the sign in the export)
         if f["s"] in ("Positive", "NonNegative") and lo is not None:
             x = float(G.unreify(lo))
             if x < 0 or (x == 0 and f["s"] == "Positive"):
@@ -81,6 +101,8 @@ def gen_sfield(rnd, depth, classes, max_depth, hashable=False, optional_ok=True)
         pool = [1, 2, 3, "a", "abc", "x", 2.5, 0, "RED", 10]
         if rnd.random() < 0.08:
             pool += [None, (1, 2), True]
+        if rnd.random() < 0.10:           # members among literals: exported by name (or as themselves under a mix-in)
+            pool += [G.Color.RED, X.Prio.HIGH, X.Tag.A, G.Size.M]
         return {"t": "enumlit", "values": [E.reify(v) for v in rnd.sample(pool, rnd.randint(1, 4))]}
     if t == "enumcls":
         cname = rnd.choice(sorted(G.ENUMS))
@@ -181,8 +203,11 @@ class Env(S.Context):
 
     def __init__(self):
         super().__init__()
-        exec("from typedpy import mappers\n", self.ns)
+        exec("from typedpy import mappers\n" + X.IMPORT, self.ns)
         self.required0 = {}
+        # a field declared as Inner may hold an instance of its subclass Sub that uses Sub's own field
+        self.instances["Inner"] = self.instances["Inner"] + [("struct", "Sub", [("a", ("int", 4)), ("c", ("int", 5))])]
+        self.prelude = []            # (classes source, history) of earlier environments that share class NAMES with this one
 
     def add(self, c):
         exec(class_src(c), self.ns)
@@ -190,7 +215,7 @@ class Env(S.Context):
         self.classes[c["name"]] = self.ns[c["name"]]
 
     def source(self):
-        return "from typedpy import mappers\n" + "".join(class_src(c) + "\n" for c in self.asts)
+        return "from typedpy import mappers\n" + X.IMPORT + "".join(class_src(c) + "\n" for c in self.asts)
 
     def snapshot_required(self):
         for n, cls in self.classes.items():
@@ -238,17 +263,33 @@ class Env(S.Context):
                     refs(g, acc)
             return acc
 
-        def walk(cname, m):
-            fields = {fd["name"]: fd["field"] for fd in self.all_fields(cname)}
-            for k, v in (m or {}).items():
-                if k.endswith("._mapper") and isinstance(v, dict) and k[:-8] in fields:
-                    for rn in refs(fields[k[:-8]], set()):
-                        if rn in self.classes and rn not in out:
-                            fn = set(self.classes[rn].get_all_fields_by_name().keys())
-                            out[rn] = [(a, b) for a, b in v.items() if a in fn and isinstance(b, str) and b != a]
-                            walk(rn, v)
+        cand = {}          # class -> list of (via explicit sub-mapper?, renames) over every path that reaches it
 
-        walk(self.top, aggregate_serialization_mappers(self.classes[self.top], None) or {})
+        def walk(cname, m, depth=0):
+            if depth > 6:
+                return
+            for fd in self.all_fields(cname):
+                sub = (m or {}).get(fd["name"] + "._mapper")
+                for rn in sorted(refs(fd["field"], set())):
+                    if rn in self.classes:
+                        # without a '<field>._mapper' entry (e.g. under a Map or AnyOf) the nested instance is serialized
+                        # with its own aggregated mapper, which in turn propagates to the classes nested in it
+                        v = sub if isinstance(sub, dict) else (aggregate_serialization_mappers(self.classes[rn], None) or {})
+                        fn = set(self.classes[rn].get_all_fields_by_name().keys())
+                        ren = sorted((a, b) for a, b in v.items() if a in fn and isinstance(b, str) and b != a)
+                        entry = (isinstance(sub, dict), ren)
+                        if entry not in cand.setdefault(rn, []):
+                            cand[rn].append(entry)
+                            walk(rn, v, depth + 1)
+
+        # the compact form of a field wrapper serializes the wrapped value without the wrapper's mapper
+        walk(self.top, {} if self.wrapper_form(self.top)
+             else (aggregate_serialization_mappers(self.classes[self.top], None) or {}))
+        for rn, entries in cand.items():
+            entries.sort(key=lambda e: not e[0])             # paths with an explicit sub-mapper first
+            out[rn] = entries[0][1]
+        # the renames of a class reached through paths with different mappers depend on the path: not modelled per class
+        self.path_dependent = {rn for rn, entries in cand.items() if len({tuple(e[1]) for e in entries}) > 1}
         return out
 
     def wrapper_form(self, name):
@@ -261,9 +302,8 @@ def materialise_defaults(rnd, c, env):
         if fd.pop("want_default", False):
             for _ in range(6):
                 v = G.gen_valid(rnd, fd["field"], env.instances)
-                if v[0] in ("int", "flt", "str", "bool", "enum") and (v[0] != "int" or v[1] != 0) and v != ("str", "") \
-                        and v != ("bool", False) and not (v[0] == "flt" and v[1] == 0):
-                    fd["default"] = v       # truthy defaults only (falsy ones are a separate defect, F12)
+                if v[0] in ("int", "flt", "str", "bool", "enum"):
+                    fd["default"] = v       # falsy defaults (0, "", False, 0.0) included
                     break
 
 
@@ -442,9 +482,60 @@ def search_table(pats, insts):
 
 # ------------------------------------------------------------------ one case = one environment + top class
 
+def add_class(rnd, env, c, top):
+    """Realise class AST c in env (falling back to a plain class when typedpy rejects the declaration), and make
+    up to 3 valid instances of it.  Returns the instances [(kwargs, instance)]."""
+    name = c["name"]
+    materialise_defaults(rnd, c, env)
+    try:
+        env.add(c)
+    except Exception as ex:  # noqa  declaration rejected by typedpy: a plain class instead
+        c = {"name": name, "fields": [{"name": "a", "field": {"t": "num", "k": "Integer", "s": "Any"}}],
+             "additional": rnd.choice([False, True])}
+        env.add(c)
+    insts = []
+    for _ in range(3):
+        r = S.make_valid_instance(rnd, c, env, tries=6)
+        if r:
+            insts.append(r)
+    if top:
+        insts += tiny_sign_instances(c, env, insts)
+        if insts and env.resolved(name)["additional"] and not env.wrapper_form(name):
+            kw = list(insts[0][0]) + [("zz_more", rnd.choice([("int", 7), ("str", "x")]))]
+            try:                   # an instance using the additional properties its class allows
+                insts.append((kw, env.classes[name](**S.realize_kwargs(kw, env))))
+            except Exception:  # noqa
+                pass
+    env.instances[name] = [("struct", name, kw) for kw, _ in insts]
+    return insts
+
+
+def link_field(kind, cname):
+    """A declaration that reaches class cname through the given construct."""
+    ref = {"t": "ref", "cls": cname}
+    if kind == "direct":
+        return ref
+    if kind == "array":
+        return {"t": "seqeach", "k": "list", "item": ref, "sz": [None, None], "uniq": False}
+    if kind == "map":
+        return {"t": "mapkv", "kf": {"t": "str"}, "vf": ref, "sz": [None, None]}
+    if kind == "anyof":
+        return {"t": "anyof", "fs": [ref, {"t": "str"}]}
+    if kind == "optional":
+        return {"t": "anyof", "fs": [ref, {"t": "none"}]}
+    if kind == "tuple":
+        return {"t": "tuple", "items": [ref, {"t": "num", "k": "Integer", "s": "Any"}], "uniq": False}
+    if kind == "seqpos":
+        return {"t": "seqpos", "k": "list", "items": [ref], "sz": [None, None], "uniq": False, "additional": False}
+    raise ValueError(kind)
+
+
+LINKS = ["direct", "array", "map", "anyof", "optional", "tuple", "seqpos"]
+
+
 def build_case(rnd, idx, tier):
     env = Env()
-    n_aux = rnd.choice([0, 1, 1, 2])
+    n_aux = rnd.choice([0, 1, 1, 2, 2, 3])
     max_depth = 2
     made = []
     for i in range(n_aux + 1):
@@ -453,32 +544,94 @@ def build_case(rnd, idx, tier):
         wrapper = (not top and rnd.random() < 0.25) or (top and rnd.random() < 0.08)
         c = gen_class(rnd, name, [m for m in made] + (["Inner", "Other"] if rnd.random() < 0.3 else []),
                       max_depth, wrapper=wrapper, exact=top and idx % 5 == 4)
-        materialise_defaults(rnd, c, env)
-        try:
-            env.add(c)
-        except Exception as ex:  # noqa  declaration rejected by typedpy: regenerate a plain one
-            c = {"name": name, "fields": [{"name": "a", "field": {"t": "num", "k": "Integer", "s": "Any"}}],
-                 "additional": rnd.choice([False, True])}
-            env.add(c)
-        insts = []
-        for _ in range(3):
-            r = S.make_valid_instance(rnd, c, env, tries=6)
-            if r:
-                insts.append(r)
-        if top:
-            insts += tiny_sign_instances(c, env, insts)
-            if insts and env.resolved(name)["additional"] and not env.wrapper_form(name):
-                kw = list(insts[0][0]) + [("zz_more", rnd.choice([("int", 7), ("str", "x")]))]
-                try:                   # an instance using the additional properties its class allows
-                    insts.append((kw, env.classes[name](**S.realize_kwargs(kw, env))))
-                except Exception:  # noqa
-                    pass
-        env.instances[name] = [("struct", name, kw) for kw, _ in insts]
+        if made and idx % 5 != 4 and rnd.random() < 0.5:
+            # reference chains: this class reaches the previous one (which may reach the one before it, ...)
+            fd = rnd.choice(c["fields"])
+            fd["field"] = link_field(rnd.choice(LINKS), made[-1])
+            fd.pop("want_default", None)
+        env.top_instances = add_class(rnd, env, c, top)
         made.append(name)
-        env.top_instances = insts
     env.top = made[-1]
+    env.generated = list(made)
     env.snapshot_required()
+    env.history = gen_history(rnd, env)
     return env
+
+
+def gen_history(rnd, env):
+    """A process history of exports ending with (or containing) the top class: [(class name, shared)], shared = the
+    definitions dict returned by the previous export is passed on (the documented way of exporting several classes
+    into one document) instead of a fresh {}."""
+    top, aux = env.top, [n for n in env.generated if n != env.top]
+    r = rnd.random()
+    if r < 0.30 or (not aux and r < 0.6):
+        return [(top, False)]
+    if r < 0.50 or not aux:
+        return [(top, False), (top, False)]
+    if r < 0.65:
+        order = list(aux)
+        rnd.shuffle(order)
+        return [(a, False) for a in order] + [(top, False)]
+    if r < 0.80:
+        return [(top, False), (rnd.choice(aux), False), (top, False)]
+    order = rnd.sample(aux, rnd.randint(1, len(aux)))
+    return [(order[0], False)] + [(a, True) for a in order[1:]] + [(top, True)]
+
+
+class Event:
+    """One call of structure_to_schema inside an environment's history."""
+
+    def __init__(self, env, pos):
+        self.env, self.pos = env, pos
+        self.cls, self.shared = env.history[pos]
+        self.pre = []            # classes exported earlier into the same definitions dict
+        self.out = None
+
+
+def run_history(env):
+    """Performs env.history on the real structure_to_schema.  Returns the events."""
+    from typedpy import structure_to_schema
+    events = []
+    defs, pre = None, []
+    for pos in range(len(env.history)):
+        ev = Event(env, pos)
+        if not ev.shared or defs is None:
+            defs, pre = {}, []
+        ev.pre = list(pre)
+        cls = env.classes[ev.cls]
+        try:
+            schema, got = structure_to_schema(cls, defs)
+            ev.out = ("ok", json.loads(json.dumps(schema)) if is_jsonable(schema) else copy.deepcopy(dict(schema)),
+                      json.loads(json.dumps(got)) if is_jsonable(got) else copy.deepcopy(got))
+            defs = got if isinstance(got, dict) else None
+            pre.append(ev.cls)
+        except Exception as ex:  # noqa
+            ev.out = ("raise", E.exn_name(ex))
+            defs, pre = None, []
+        events.append(ev)
+    env.required_mutated = env.restore_required()
+    return events
+
+
+def replay_fields(ev):
+    env = ev.env
+    return {"classes_src": env.source(), "prelude": env.prelude, "history": [list(h) for h in env.history[:ev.pos + 1]],
+            "target": ev.cls}
+
+
+def hist_lines(history):
+    return "".join("s, d = structure_to_schema(%s, %s)\n" % (c, "d" if (sh and i) else "{}") for i, (c, sh) in enumerate(history))
+
+
+def script(ev, tail=""):
+    """Human-readable Python text of a replay (the replay itself is driven by replay_fields)."""
+    env = ev.env
+    pre = "from typedpy import *\n"
+    for src, hist in env.prelude:
+        pre += "# --- an earlier, independent set of classes exported in the same process\n" + src + hist_lines(hist)
+    if env.prelude:
+        pre += "# --- the classes of this case\n"
+    return pre + env.source() + hist_lines(env.history[:ev.pos + 1]) + tail
 
 
 def tiny_sign_instances(c, env, insts):
@@ -500,18 +653,158 @@ def tiny_sign_instances(c, env, insts):
     return out
 
 
-def export(env):
-    """The real structure_to_schema on the top class -> ("ok", schema, defs) | ("raise", cls)."""
-    from typedpy import structure_to_schema
-    cls = env.classes[env.top]
-    try:
-        schema, defs = structure_to_schema(cls, {})
-        out = ("ok", json.loads(json.dumps(schema)) if is_jsonable(schema) else copy.deepcopy(dict(schema)),
-               json.loads(json.dumps(defs)) if is_jsonable(defs) else copy.deepcopy(defs))
-    except Exception as ex:  # noqa
-        out = ("raise", E.exn_name(ex))
-    env.required_mutated = env.restore_required()
-    return out
+# ------------------------------------------------------------------ deterministic lattices
+
+INT = {"t": "num", "k": "Integer", "s": "Any"}
+ENUM_POS = ["direct", "array", "map", "set", "tuple", "anyof", "optional", "default", "wrapper"]
+
+
+def enum_position(pos, ef):
+    if pos in ("direct", "default", "wrapper"):
+        return ef
+    if pos == "array":
+        return {"t": "seqeach", "k": "list", "item": ef, "sz": [None, None], "uniq": False}
+    if pos == "map":
+        return {"t": "mapkv", "kf": {"t": "str"}, "vf": ef, "sz": [None, None]}
+    if pos == "set":
+        return {"t": "set", "imm": False, "item": ef, "sz": [None, None]}
+    if pos == "tuple":
+        return {"t": "tuple", "items": [ef, INT], "uniq": False}
+    if pos == "anyof":
+        return {"t": "anyof", "fs": [ef, INT]}
+    if pos == "optional":
+        return {"t": "anyof", "fs": [ef, {"t": "none"}]}
+    raise ValueError(pos)
+
+
+def enum_value_at(pos, vals):
+    """Reified value for the enum position holding the given member values (all of them where the position is a
+    container, the first one otherwise)."""
+    if pos == "array":
+        return ("list", list(vals))
+    if pos == "map":
+        return ("dict", [(("str", "k%d" % i), v) for i, v in enumerate(vals)])
+    if pos == "set":
+        return G.mk_set(False, list(vals))
+    if pos == "tuple":
+        return ("tuple", [vals[0], ("int", 7)])
+    return vals[0]
+
+
+def enum_lattice(rnd, idx0, tier):
+    """Every enum class of the vocabulary x every position an Enum field can take x (thorough: every proper prefix of
+    the members as an explicit subset); instances: every allowed member, as object and by name."""
+    envs = []
+    idx = idx0
+    for cname in sorted(G.ENUMS):
+        names = [m.name for m in G.ENUMS[cname]]
+        subsets = [names] + ([names[:k] for k in range(1, len(names))] if tier == "thorough" else [names[:1]])
+        for si, members in enumerate(subsets):
+            for pos in ENUM_POS:
+                if si > 0 and tier != "thorough" and pos not in ("direct", "array"):
+                    continue
+                ef = {"t": "enumcls", "cls": cname, "members": list(members)}
+                env = Env()
+                name = "K%d_0" % idx
+                idx += 1
+                fields = [{"name": "e", "field": enum_position(pos, ef)}]
+                if pos == "default":
+                    fields[0]["default"] = E.reify(G.ENUMS[cname][members[0]])
+                if pos != "wrapper":
+                    fields.append({"name": "n", "field": INT})
+                c = {"name": name, "fields": fields, "additional": False}
+                try:
+                    env.add(c)
+                except Exception:  # noqa  declaration rejected by typedpy
+                    continue
+                insts = []
+                objs = [E.reify(G.ENUMS[cname][m]) for m in members]
+                strs = [("str", m) for m in members]
+                for vals in [objs, strs] + [[o] for o in objs[1:]] + [[s_] for s_ in strs[1:]]:
+                    kw = [("e", enum_value_at(pos, vals))] + ([("n", ("int", 1))] if pos != "wrapper" else [])
+                    try:
+                        insts.append((kw, env.classes[name](**S.realize_kwargs(kw, env))))
+                    except Exception:  # noqa  (e.g. members of a str mix-in class are rejected as objects)
+                        pass
+                env.instances[name] = [("struct", name, kw) for kw, _ in insts]
+                env.top_instances = insts
+                env.top = name
+                env.generated = [name]
+                env.snapshot_required()
+                env.history = [(name, False)]
+                env.lattice = "enum:%s:%s:%s" % (cname, pos, "all" if si == 0 else "subset%d" % len(members))
+                envs.append(env)
+    return envs, idx
+
+
+def ref_shapes(tier):
+    """Reference graphs: chains of depth 1..3 through every linking construct, a diamond, two tops sharing a middle
+    class.  Each: list of (suffix, [fields]) in definition order, the last one is the top class."""
+    leafs = [[{"name": "a", "field": INT}, {"name": "b", "field": {"t": "str"}}],
+             [{"name": "v", "field": {"t": "str"}}, {"name": "w", "field": {"t": "bool"}}, {"name": "a", "field": {"t": "str"}}]]
+    shapes = []
+    k = 0
+    for depth in (1, 2, 3):
+        for link in LINKS:
+            cls = [("Leaf", leafs[k % 2])]
+            k += 1
+            prev = "Leaf"
+            for d in range(depth):
+                nm = ["Mid", "Up", "Top"][d] if d < depth - 1 else "Top"
+                cls.append((nm, [{"name": "x", "field": ("LINK", link, prev)}, {"name": "n", "field": INT}]))
+                prev = nm
+            shapes.append(("chain%d:%s" % (depth, link), cls))
+    shapes.append(("diamond", [("Leaf", leafs[0]),
+                               ("Mid", [{"name": "z", "field": ("LINK", "direct", "Leaf")}, {"name": "n", "field": INT}]),
+                               ("Up", [{"name": "z", "field": ("LINK", "array", "Leaf")}, {"name": "m", "field": INT}]),
+                               ("Top", [{"name": "l", "field": ("LINK", "direct", "Mid")},
+                                        {"name": "r", "field": ("LINK", "direct", "Up")}])]))
+    shapes.append(("shared-mid", [("Leaf", leafs[1]),
+                                  ("Mid", [{"name": "z", "field": ("LINK", "direct", "Leaf")}, {"name": "n", "field": INT}]),
+                                  ("Up", [{"name": "m", "field": ("LINK", "direct", "Mid")}, {"name": "x", "field": INT}]),
+                                  ("Top", [{"name": "m", "field": ("LINK", "optional", "Mid")}, {"name": "y", "field": {"t": "str"}}])]))
+    return shapes
+
+
+def ref_histories(names):
+    """Export histories over the classes of a reference graph (names in definition order, top last)."""
+    top, aux = names[-1], names[:-1]
+    hs = [("repeat", [(top, False), (top, False)]),
+          ("parts-first", [(a, False) for a in aux] + [(top, False)]),
+          ("one-document", [(aux[0], False)] + [(a, True) for a in aux[1:]] + [(top, True)])]
+    if len(aux) >= 2:
+        hs.append(("top-mid-top", [(top, False), (aux[-1], False), (top, False)]))
+        hs.append(("top-leaf-top", [(top, False), (aux[0], False), (top, False)]))
+    return hs
+
+
+def ref_lattice(rnd, tier):
+    """Reference graphs x export histories; every environment defines its OWN classes under the SAME class names
+    (Leaf/Mid/Up/Top) as the ones before it, with different fields, so that any state kept across exports (by class
+    object or by class name) is exercised.  The replay of a failure carries the earlier environments as prelude."""
+    envs = []
+    prelude = []
+    for sname, cls in ref_shapes(tier):
+        names = [n for n, _ in cls]
+        for hname, hist in ref_histories(names):
+            if tier != "thorough" and sname.startswith("chain1") and hname != "repeat":
+                continue
+            env = Env()
+            env.prelude = list(prelude)
+            for i, (nm, fields) in enumerate(cls):
+                c = {"name": nm, "additional": False,
+                     "fields": [{"name": fd["name"], "field": link_field(fd["field"][1], fd["field"][2])
+                                 if isinstance(fd["field"], tuple) else fd["field"]} for fd in fields]}
+                env.top_instances = add_class(rnd, env, c, top=False)
+            env.top = names[-1]
+            env.generated = list(names)
+            env.snapshot_required()
+            env.history = hist
+            env.lattice = "ref:%s:%s" % (sname, hname)
+            envs.append(env)
+            prelude = (prelude + [(("from typedpy import mappers\n" + "".join(class_src(c) + "\n" for c in env.asts[3:])),
+                                   [list(h) for h in hist])])[-6:]
+    return envs
 
 
 def serialize_top(env, inst):
@@ -559,6 +852,19 @@ def rep_required_empty(doc, ctx):
     walk_schemas(doc, fn)
 
 
+def rep_enum_dups(doc, ctx):
+    def fn(s_):
+        if isinstance(s_.get("enum"), list):
+            out = []
+            for x in s_["enum"]:
+                if not any(type(x) is type(y) and x == y for y in out):
+                    out.append(x)
+            if len(out) != len(s_["enum"]):
+                s_["enum"] = out
+                ctx["changed"] = True
+    walk_schemas(doc, fn)
+
+
 def rep_exclmax(doc, ctx):
     def fn(s):
         if "exclusiveMaximum" in s and "maximum" not in s:
@@ -585,6 +891,28 @@ def rep_tuple1(doc, ctx):
             del s["additionalItems"]
             ctx["changed"] = True
     walk_schemas(doc, fn)
+
+
+def has_key(s, key):
+    if isinstance(s, dict):
+        return key in s or any(has_key(v, key) for v in s.values())
+    if isinstance(s, list):
+        return any(has_key(v, key) for v in s)
+    return False
+
+
+def rep_tuple_untyped(doc, ctx):
+    """The serializer renders Tuple elements without their item fields, so an enum member with a mixed-in primitive
+    type appears by value where the item schema lists names."""
+    env = ctx["env"]
+
+    def fn(f, s_):
+        if f["t"] == "tuple" and isinstance(s_.get("items"), list):
+            for i, x in enumerate(s_["items"]):
+                if has_key(x, "enum"):
+                    s_["items"][i] = {}
+                    ctx["changed"] = True
+    class_walk(env, env.top, doc, doc, fn, set())
 
 
 def rep_wrapper(doc, ctx):
@@ -765,6 +1093,47 @@ def rep_bool_number(doc, ctx):
     walk_schemas(doc, fn)
 
 
+def has_json_bool(j):
+    if isinstance(j, bool):
+        return True
+    if isinstance(j, list):
+        return any(has_json_bool(x) for x in j)
+    if isinstance(j, dict):
+        return any(has_json_bool(x) for x in j.values())
+    return False
+
+
+def rep_bool_number_exact(doc, ctx):
+    """Exactness side: a JSON boolean is a Python int, so Number/Integer fields accept it (True == 1, False == 0)."""
+    if not has_json_bool(ctx.get("inst")):
+        return
+
+    def fn(s):
+        if s.get("type") in ("number", "integer") and "anyOf" not in s:
+            inner = dict(s)
+            s.clear()
+            s["anyOf"] = [inner, {"type": "boolean"}]
+            ctx["changed"] = True
+    walk_schemas(doc, fn)
+
+
+def rep_enum_python_eq(doc, ctx):
+    """Enum over literals tests membership with Python equality: False == 0 and True == 1 (JSON keeps them apart)."""
+    def fn(s):
+        if isinstance(s.get("enum"), list):
+            extra = []
+            for x in s["enum"]:
+                if isinstance(x, bool):
+                    extra.append(int(x))
+                elif isinstance(x, (int, float)) and x in (0, 1):
+                    extra.append(bool(x))
+            extra = [x for x in extra if not any(type(x) is type(y) and x == y for y in s["enum"])]
+            if extra:
+                s["enum"] = s["enum"] + extra
+                ctx["changed"] = True
+    walk_schemas(doc, fn)
+
+
 def rep_wrapper_none(doc, ctx):
     env = ctx["env"]
     if env.wrapper_form(env.top) and len(ctx["kwargs"]) == 1 and ctx["kwargs"][0][1][0] == "none":
@@ -774,9 +1143,152 @@ def rep_wrapper_none(doc, ctx):
         ctx["changed"] = True
 
 
+def is_optional(f):
+    return f["t"] == "anyof" and len(f["fs"]) == 2 and f["fs"][1]["t"] == "none"
+
+
+def field_walk(env, f, s, doc, fn, seen):
+    """Walk a declaration in parallel with its exported (dialect-translated) schema; children first."""
+    if not isinstance(s, dict):
+        return
+    t = f["t"]
+    if t == "seqeach" or (t == "set" and f.get("item")):
+        field_walk(env, f["item"], s.get("items"), doc, fn, seen)
+    elif t in ("seqpos", "tuple"):
+        if isinstance(s.get("items"), list):
+            for g, x in zip(f["items"], s["items"]):
+                field_walk(env, g, x, doc, fn, seen)
+    elif t == "mapkv":
+        x = s.get("additionalProperties") if isinstance(s.get("additionalProperties"), dict) else s.get("patternProperties")
+        field_walk(env, f["vf"], x, doc, fn, seen)
+    elif is_optional(f):
+        field_walk(env, f["fs"][0], s, doc, fn, seen)
+        return
+    elif t in ("allof", "anyof", "oneof"):
+        lst = s.get({"allof": "allOf", "anyof": "anyOf", "oneof": "oneOf"}[t])
+        if isinstance(lst, list):
+            for g, x in zip(f["fs"], lst):
+                field_walk(env, g, x, doc, fn, seen)
+    elif t == "not":
+        lst = s["not"].get("anyOf") if isinstance(s.get("not"), dict) else None
+        if isinstance(lst, list):
+            for g, x in zip(f["fs"], lst):
+                field_walk(env, g, x, doc, fn, seen)
+    elif t == "ref":
+        d = doc.get("definitions", {}).get(f["cls"])
+        if f["cls"] in env.classes:
+            class_walk(env, f["cls"], d, doc, fn, seen)
+    fn(f, s)
+
+
+def class_walk(env, cname, s, doc, fn, seen):
+    if cname in seen or not isinstance(s, dict):
+        return
+    seen.add(cname)
+    fields = env.all_fields(cname)
+    if env.wrapper_form(cname):
+        field_walk(env, fields[0]["field"], s, doc, fn, seen)
+    elif isinstance(s.get("properties"), dict):
+        ren = dict(env.renames(cname))
+        for fd in fields:
+            field_walk(env, fd["field"], s["properties"].get(ren.get(fd["name"], fd["name"])), doc, fn, seen)
+
+
+SIGN_SCHEMA = {"Positive": {"minimum": 0, "exclusiveMinimum": True}, "NonNegative": {"minimum": 0},
+               "Negative": {"maximum": 0, "exclusiveMaximum": True}, "NonPositive": {"maximum": 0}}
+
+
+def sign_lost(f):
+    return f["t"] == "num" and ((f["s"] in ("Positive", "NonNegative") and f.get("min") is not None)
+                                or (f["s"] in ("Negative", "NonPositive") and f.get("max") is not None))
+
+
+def rep_sign(doc, ctx):
+    """NumberMapper.get_min/get_max return the explicit bound INSTEAD of the bound implied by the sign class."""
+    env = ctx["env"]
+
+    def fn(f, s):
+        if sign_lost(f) and "allOf" not in s:
+            old = dict(s)
+            s.clear()
+            s["allOf"] = [old, dict(SIGN_SCHEMA[f["s"]])]
+            ctx["changed"] = True
+    class_walk(env, env.top, doc, doc, fn, set())
+
+
+def rep_literal_member(doc, ctx):
+    """Enum over a MIXED list of literals and enum members: EnumMapper lists a member by name, Enum.serialize returns
+    the stored member as it is (json: its value when the class mixes in a primitive type)."""
+    env = ctx["env"]
+
+    def fn(f, s_):
+        if f["t"] == "enumlit" and isinstance(s_.get("enum"), list):
+            for v in f["values"]:
+                if v[0] == "enum" and v[3][0] in ("int", "flt", "str", "bool"):
+                    s_["enum"] = s_["enum"] + [G.unreify(v[3])]
+                    ctx["changed"] = True
+    class_walk(env, env.top, doc, doc, fn, set())
+
+
+def rep_literal_member_exact(doc, ctx):
+    """Exactness side of the same defect: the export lists the member's NAME, which the field (membership in the
+    declared list) does not accept; the stricter export lists the member's value instead."""
+    env = ctx["env"]
+
+    def fn(f, s_):
+        if f["t"] == "enumlit" and isinstance(s_.get("enum"), list) and any(v[0] == "enum" for v in f["values"]):
+            out = []
+            for v in f["values"]:
+                if v[0] != "enum":
+                    out.append(G.unreify(v))
+                elif v[3][0] in ("int", "flt", "str", "bool"):
+                    out.append(G.unreify(v[3]))
+            s_["enum"] = out or ["\u0000no-such-value"]
+            ctx["changed"] = True
+    class_walk(env, env.top, doc, doc, fn, set())
+
+
+def has_subclass_struct(r, env):
+    if isinstance(r, (list, tuple)):
+        if len(r) == 3 and r[0] == "struct" and isinstance(r[1], str):
+            try:
+                if env.ancestors(r[1]):
+                    return True
+            except KeyError:
+                pass
+        return any(has_subclass_struct(x, env) for x in r)
+    return False
+
+
+def rep_subclass_instance(doc, ctx):
+    """A field declared as class B accepts instances of subclasses of B, serialized with the subclass's own fields;
+    the definition of B is closed (additionalProperties false)."""
+    env = ctx["env"]
+    if not has_subclass_struct(ctx["kwargs"], env):
+        return
+    for name, d in doc.get("definitions", {}).items():
+        if isinstance(d, dict) and d.get("additionalProperties") is False:
+            d["additionalProperties"] = True
+            ctx["changed"] = True
+
+
+def rep_positional_min(doc, ctx):
+    """Array(items=[...]) / Tuple require at least len(items) elements; the export has no minItems."""
+    def fn(s):
+        if s.get("type") == "array" and isinstance(s.get("items"), list) and s.get("minItems", 0) < len(s["items"]):
+            s["minItems"] = len(s["items"])
+            ctx["changed"] = True
+    walk_schemas(doc, fn)
+
+
 WF_REPAIRS = [("patternProperties-not-an-object-of-schemas", rep_patprops), ("required-empty", rep_required_empty),
-              ("exclusiveMaximum-without-maximum", rep_exclmax)]
-COMPLETE_REPAIRS = [("sign-only-bound-rendered-as-epsilon", rep_eps), ("nested-field-wrapper", rep_wrapper),
+              ("exclusiveMaximum-without-maximum", rep_exclmax),
+              ("enum-entries-not-unique", rep_enum_dups)]
+# AST-aware repairs (they walk the declarations in parallel with the export) come before the ones that reshape it
+COMPLETE_REPAIRS = [("sign-dropped-under-explicit-bound", rep_sign),
+                    ("enum-member-among-literals-serialized-as-stored", rep_literal_member),
+                    ("Tuple-elements-serialized-without-their-item-fields", rep_tuple_untyped),
+                    ("sign-only-bound-rendered-as-epsilon", rep_eps), ("nested-field-wrapper", rep_wrapper),
                     ("required-key-of-None-valued-attribute-dropped", rep_none_required),
                     ("single-item-Tuple-is-homogeneous", rep_tuple1),
                     ("mapper-propagates-into-nested-class", rep_nested_mapper),
@@ -784,7 +1296,7 @@ COMPLETE_REPAIRS = [("sign-only-bound-rendered-as-epsilon", rep_eps), ("nested-f
                     ("uniqueItems-checked-before-normalisation", rep_unique_bool),
                     ("exclusiveMaximum-applied-to-sign-implied-maximum", rep_excl_implied),
                     ("Map-size-exported-as-minItems-maxItems", rep_map_sizes),
-
+                    ("subclass-instance-under-base-class-reference", rep_subclass_instance),
                     ("Boolean-string-form-stored-raw", rep_bool_strings),
                     ("Optional-element-serialized-as-null", rep_null_elements),
                     ("field-wrapper-holding-None", rep_wrapper_none),
@@ -792,6 +1304,18 @@ COMPLETE_REPAIRS = [("sign-only-bound-rendered-as-epsilon", rep_eps), ("nested-f
                     ("bool-value-under-numeric-field", rep_bool_number),
                     ("NotField-evaluated-on-serialized-form", rep_not),
                     ("OneOf-evaluated-on-serialized-form", rep_oneof)]
+
+
+# exactness: a repair explains "admitted by the schema, rejected by the Deserializer" when the repaired (stricter)
+# schema rejects the document
+EXACT_REPAIRS = [("sign-dropped-under-explicit-bound", rep_sign),
+                 ("enum-member-among-literals-serialized-as-stored", rep_literal_member_exact),
+                 ("positional-items-admit-shorter-arrays", rep_positional_min),
+                 ("nested-field-wrapper", rep_wrapper),
+                 ("Map-size-exported-as-minItems-maxItems", rep_map_sizes),
+                 ("Boolean-string-form-stored-raw", rep_bool_strings),
+                 ("bool-value-under-numeric-field", rep_bool_number_exact),
+                 ("Enum-literals-compared-with-Python-equality", rep_enum_python_eq)]
 
 
 def apply_repairs(doc, repairs, ctx):
@@ -826,7 +1350,7 @@ def classify(failures, repairs, prefix, generic):
     def passes(fi, r):
         if failures[fi]["inst"] is None:
             return r["schema_error"] is None and not r["refs_missing"] and not r["crash"]
-        return bool(r["verdicts"]) and r["verdicts"][0] is True
+        return bool(r["verdicts"]) and r["verdicts"][0] is failures[fi].get("want", True)
 
     multi = {}
     if jobs:
@@ -866,15 +1390,16 @@ def classify(failures, repairs, prefix, generic):
 
 # ------------------------------------------------------------------ Coq evaluation
 
-HEADER = """From Coq Require Import ZArith NArith String List Bool. Import ListNotations.
+HEADER0 = """From Coq Require Import ZArith NArith String List Bool. Import ListNotations.
 From TP Require Import Check.C08chk.
 Local Open Scope string_scope.
+Definition einfo0 : list (pystr * eopts) := %s.
 """
 
 
 def coq_eval(defs_and_evals, tag):
     """defs_and_evals: list of (shard text, number of Eval lines).  Returns list of lists of nat lists."""
-    res = core.eval_cases([t for t, _ in defs_and_evals], tag, HEADER)
+    res = core.eval_cases([t for t, _ in defs_and_evals], tag, HEADER0 % einfo_text())
     out = []
     for (rc, so, se), (_, n) in zip(res, defs_and_evals):
         vals = core.parse_eval(so)
@@ -884,61 +1409,66 @@ def coq_eval(defs_and_evals, tag):
     return out
 
 
-def scase_text(env, obs, pats):
+def einfo_text():
+    return E.lst(["(%s, {| eo_mixin := %s; eo_by_value := %s |})" % (E.pstr(n), X.mixin_of(c), E.blit(n in G.BY_VALUE))
+                  for n, c in sorted(G.ENUMS.items())])
+
+
+def env_text(env):
+    if getattr(env, "_text", None) is None:
+        env._text = E.lst(["\n  " + env.emit_classdef(c["name"]) for c in env.asts])
+    return env._text
+
+
+def scase_text(ev, pats):
+    env, obs = ev.env, ev.out
     o = "None"
     if obs[0] == "ok":
         o = "(Some (%s, %s))" % (jval(obs[1]), jval(obs[2]))
-    return "{| sc_env := %s; sc_smap := %s; sc_pats := %s; sc_cls := %s; sc_obs := %s |}" % (
-        E.lst(["\n  " + env.emit_classdef(c["name"]) for c in env.asts]), env.coq_smap(), pats.ptable(),
-        E.pstr(env.top), o)
+    return ("{| sc_env := %s; sc_einfo := einfo0; sc_smap := %s; sc_pats := %s; sc_pre := %s; sc_cls := %s; "
+            "sc_obs := %s |}") % (env_text(env), env.coq_smap(), pats.ptable(), E.lst([E.pstr(n) for n in ev.pre]),
+                                  E.pstr(ev.cls), o)
 
 
 def rcase_text(env, attrs, obs_json):
-    strs = set()
     vals = [v for _, v in attrs]
     fields = [fd["field"] for c in env.asts for fd in c["fields"]]
-    return "{| rc_tbl := %s; rc_env := %s; rc_smap := %s; rc_cls := %s; rc_attrs := %s; rc_obs := %s |}" % (
-        G.emit_table(G.match_table(fields, vals)),
-        E.lst(["\n  " + env.emit_classdef(c["name"]) for c in env.asts]), env.coq_smap(effective=True), E.pstr(env.top),
+    return ("{| rc_tbl := %s; rc_env := %s; rc_einfo := einfo0; rc_smap := %s; rc_cls := %s; rc_attrs := %s; "
+            "rc_obs := %s |}") % (
+        G.emit_table(G.match_table(fields, vals)), env_text(env), env.coq_smap(effective=True), E.pstr(env.top),
         E.lst(["(%s, %s)" % (E.pstr(k), E.pval(v)) for k, v in attrs]), jval(obs_json))
 
 
 # ------------------------------------------------------------------ boundary documents (exact sub-fragment)
 
 def exact_field(f):
+    """The exact sub-fragment of the statement: everything schema-mappable except Set, unanchored patterns and
+    sign-only float bounds (defaults and date/time formats are excluded at class level / not generated)."""
     t = f["t"]
     if t == "num":
-        if f["k"] != "Integer" and f["s"] in ("Positive", "Negative"):
-            return False
-        if f["s"] != "Any" and (f.get("min") is not None or f.get("max") is not None):
-            return False                        # explicit bound overriding the sign: characterised separately
-        if f.get("xmax") and f.get("max") is None:
+        if f["k"] != "Integer" and ((f["s"] == "Positive" and f.get("min") is None)
+                                    or (f["s"] == "Negative" and f.get("max") is None)):
             return False
         return not (f.get("mult") is not None and f["mult"] <= 0)
     if t == "str":
         return f.get("pat") is None or G.PATTERNS[f["pat"]].startswith("^")
-    if t == "bool":
-        return True
-    if t == "enumlit":
-        return all(v[0] in ("int", "str") for v in f["values"])
-    if t == "enumcls":
+    if t in ("bool", "enumlit", "enumcls", "seqany", "mapany", "ref"):
         return True
     if t == "seqeach":
-        return f["k"] == "list" and not f.get("uniq") and exact_field(f["item"])
+        return exact_field(f["item"])
+    if t in ("seqpos", "tuple"):
+        return all(exact_field(g) for g in f["items"])
     if t == "mapkv":
-        kf = f["kf"]
-        return kf["t"] == "str" and not any(kf.get(k) for k in ("min", "max")) and kf.get("pat") is None \
-            and f["sz"] == [None, None] and exact_field(f["vf"])
-    if t == "ref":
-        return False
-    return False
+        return f["kf"]["t"] == "str" and exact_field(f["kf"]) and exact_field(f["vf"])
+    if t in ("allof", "anyof", "oneof", "not"):
+        return all(exact_field(g) or g["t"] == "none" for g in f["fs"])
+    return False            # set; none / any (unmappable)
 
 
 def exact_class(env):
-    c = env.ast(env.top)
-    return (not env.wrapper_form(env.top) and not c.get("mapper") and c.get("additional") is False
-            and all(fd.get("default") is None and exact_field(fd["field"]) for fd in c["fields"])
-            and len(env.resolved(env.top)["required"]) > 0)
+    """Every class of the environment the top class can reach is in the exact sub-fragment."""
+    return all(fd.get("default") is None and exact_field(fd["field"])
+               for n in env.generated for fd in env.ast(n)["fields"])
 
 
 def near(rnd, j):
@@ -978,58 +1508,334 @@ def near(rnd, j):
     return rnd.choice([0, "a", [], {}])
 
 
+def _num_points(s_):
+    lo, hi, m, t = s_.get("minimum"), s_.get("maximum"), s_.get("multipleOf"), s_.get("type")
+    pts = [0, 1, -1]
+    for b in (lo, hi):
+        if isinstance(b, (int, float)) and not isinstance(b, bool):
+            pts += [b, b - 1, b + 1, math.floor(b), math.ceil(b)]
+            if t != "integer":
+                pts += [b - 0.5, b + 0.5, math.nextafter(float(b), math.inf), math.nextafter(float(b), -math.inf)]
+    if isinstance(m, (int, float)) and not isinstance(m, bool) and m:
+        pts += [m, 2 * m, m + 1, -m]
+        for b in (lo, hi):
+            if isinstance(b, (int, float)) and not isinstance(b, bool):
+                q = math.floor(b / m)
+                pts += [q * m, (q + 1) * m, (q - 1) * m]
+    out = []
+    for p_ in pts:
+        if isinstance(p_, float) and p_.is_integer() and abs(p_) < 2 ** 53:
+            out += [int(p_), p_] if t != "integer" else [int(p_)]
+        else:
+            out.append(p_)
+    return out
+
+
+def _resolve(s_, defs):
+    for _ in range(4):
+        if isinstance(s_, dict) and isinstance(s_.get("$ref"), str):
+            s_ = defs.get(s_["$ref"][len("#/definitions/"):], {})
+    return s_ if isinstance(s_, dict) else {}
+
+
+def variants(s_, v, defs, depth=0):
+    """Values at and next to the boundaries the (dialect-translated) schema s_ draws, starting from the admitted
+    value v: every keyword of the schema contributes the points just inside and just outside."""
+    s_ = _resolve(s_, defs)
+    out = []
+    if depth > 3:
+        return out
+    for key in ("allOf", "anyOf", "oneOf"):
+        for br in s_.get(key) or []:
+            out += variants(br, v, defs, depth + 1)
+    if isinstance(s_.get("not"), dict):
+        out += variants(s_["not"], v, defs, depth + 1)
+    if isinstance(s_.get("enum"), list):
+        out += list(s_["enum"])
+        for x in s_["enum"][:3]:
+            if isinstance(x, str):
+                out += [x.lower(), x + "x"]
+            elif isinstance(x, (int, float)) and not isinstance(x, bool):
+                out += [x + 1, str(x)]
+        out += X_NEAR
+    t = s_.get("type")
+    if t in ("integer", "number") or any(k in s_ for k in ("minimum", "maximum", "multipleOf")):
+        out += _num_points(s_)
+        if t == "integer":
+            out += [True, 1.0, 1.5]
+    if t == "string" or any(k in s_ for k in ("minLength", "maxLength", "pattern")):
+        lens = {0, 1}
+        for k in ("minLength", "maxLength"):
+            if isinstance(s_.get(k), int):
+                lens |= {max(0, s_[k] - 1), s_[k], s_[k] + 1}
+        pool = list(G.STRINGS) + ["a" * n for n in sorted(lens)]
+        if isinstance(s_.get("pattern"), str):
+            try:
+                rx = re.compile(s_["pattern"])
+                pool = [x for x in pool if rx.search(x)] + pool[:3]
+            except re.error:
+                pass
+        out += [x for x in pool if len(x) in lens][:8]
+    if t == "boolean":
+        out += [True, False, "True", 1]
+    if isinstance(v, list) and (t == "array" or "items" in s_):
+        items = s_.get("items")
+        lens = {0, max(0, len(v) - 1), len(v) + 1}
+        for k in ("minItems", "maxItems"):
+            if isinstance(s_.get(k), int):
+                lens |= {max(0, s_[k] - 1), s_[k], s_[k] + 1}
+        if isinstance(items, list):
+            lens |= {max(0, len(items) - 1), len(items), len(items) + 1}
+        for n in sorted(lens):
+            if n <= 6 and n != len(v):
+                out.append((v + [v[-1] if v else 0] * n)[:n])
+        if v and s_.get("uniqueItems"):
+            out.append(v + [v[0]])
+        for i in range(min(len(v), 2)):
+            sub = items[i] if isinstance(items, list) and i < len(items) else (items if isinstance(items, dict) else None)
+            if sub is not None:
+                for w in variants(sub, v[i], defs, depth + 1)[:10]:
+                    out.append(v[:i] + [w] + v[i + 1:])
+    if isinstance(v, dict) and (t == "object" or "properties" in s_ or "additionalProperties" in s_):
+        props = s_.get("properties") if isinstance(s_.get("properties"), dict) else {}
+        for k in sorted(v):
+            sub = props.get(k, s_.get("additionalProperties") if isinstance(s_.get("additionalProperties"), dict) else None)
+            if isinstance(sub, dict):
+                for w in variants(sub, v[k], defs, depth + 1)[:12]:
+                    out.append(dict(v, **{k: w}))
+            out.append({a_: b_ for a_, b_ in v.items() if a_ != k})
+        out.append(dict(v, zz_extra=1))
+    return out
+
+
+def boundary_docs(doc, base, cap):
+    """Deterministic boundary documents of the exported document `doc` around the admitted document `base`."""
+    top = {k: x for k, x in doc.items() if k != "definitions"}
+    seen, out = set(), []
+    for w in variants(top, base, doc.get("definitions", {})):
+        try:
+            key = json.dumps(w, sort_keys=True)
+        except (TypeError, ValueError):
+            continue
+        if key not in seen and w != base:
+            seen.add(key)
+            out.append(w)
+    if len(out) > cap:           # spread over the whole list (the keys of the document come in order)
+        step = len(out) / cap
+        out = [out[int(i * step)] for i in range(cap)]
+    return out
+
+
 def deser_accepts(env, doc):
-    from typedpy import Deserializer
+    """The Deserializer paired with the export: for a field wrapper (exported in compact form) the documented
+    compact deserialization is switched on."""
+    from typedpy import Deserializer, Structure
+    from typedpy.structures import TypedPyDefaults
+    old = TypedPyDefaults.compact_deserialization_default
     try:
+        if env.wrapper_form(env.top):
+            Structure.set_compact_deserialization_default(True)
         Deserializer(env.classes[env.top]).deserialize(copy.deepcopy(doc))
         return True, None
     except Exception as ex:  # noqa
         return False, type(ex).__name__
+    finally:
+        Structure.set_compact_deserialization_default(old)
 
 
 # ------------------------------------------------------------------ the check
 
+def rejects_alone(env, f, v):
+    """Does the Deserializer reject value v for declaration f taken alone (single-field class)?"""
+    from typedpy import Deserializer
+    try:
+        T = S.single_field_class(f, env)
+        Deserializer(T).deserialize({"f": copy.deepcopy(v)})
+        return False
+    except Exception:  # noqa
+        return True
+
+
+def deep_culprit(env, f, v, depth=0):
+    """Shape of the innermost declaration(s) responsible for the rejection of v."""
+    t = f["t"]
+    if depth < 4:
+        if t == "ref" and isinstance(v, dict) and f["cls"] in env.classes and not env.wrapper_form(f["cls"]):
+            ren = dict(env.renames(f["cls"]))
+            inner = [deep_culprit(env, fd["field"], v[ren.get(fd["name"], fd["name"])], depth + 1)
+                     for fd in env.all_fields(f["cls"])
+                     if ren.get(fd["name"], fd["name"]) in v and rejects_alone(env, fd["field"], v[ren.get(fd["name"], fd["name"])])]
+            if inner:
+                return "ref(%s)" % "+".join(sorted(set(inner)))
+        if t == "seqeach" and isinstance(v, list):
+            inner = [deep_culprit(env, f["item"], x, depth + 1) for x in v if rejects_alone(env, f["item"], x)]
+            if inner:
+                return "seqeach(%s)" % "+".join(sorted(set(inner)))
+        if t == "mapkv" and isinstance(v, dict):
+            inner = [deep_culprit(env, f["vf"], x, depth + 1) for x in v.values() if rejects_alone(env, f["vf"], x)]
+            if inner:
+                return "mapkv(%s)" % "+".join(sorted(set(inner)))
+        if t in ("seqpos", "tuple") and isinstance(v, list) and (len(f["items"]) > 1 or t == "seqpos"):
+            inner = [deep_culprit(env, g, x, depth + 1) for g, x in zip(f["items"], v) if rejects_alone(env, g, x)]
+            if inner:
+                return "%s(%s)" % (t, "+".join(sorted(set(inner))))
+    return field_kind(f)
+
+
+def exact_culprit(env, doc, exn):
+    """Which field of the top class makes the Deserializer reject a document its schema admits: every field is tried
+    alone, in a single-field class, on its own value (descending into nested structures, arrays and maps).
+    -> declaration shape(s)."""
+    fields = env.all_fields(env.top)
+    if env.wrapper_form(env.top):
+        if isinstance(doc, dict):
+            return "compact-form-of-a-field-wrapper-is-an-object"
+        pairs = [(fields[0], doc)]
+    elif isinstance(doc, dict):
+        ren = dict(env.renames(env.top))
+        pairs = [(fd, doc[ren.get(fd["name"], fd["name"])]) for fd in fields if ren.get(fd["name"], fd["name"]) in doc]
+    else:
+        return "document"
+    out = [deep_culprit(env, fd["field"], v) for fd, v in pairs if rejects_alone(env, fd["field"], v)]
+    return "+".join(sorted(set(out))) if out else "class"
+
+
+def field_kind(f):
+    t = f["t"]
+    if t == "enumcls":
+        subset = len(f["members"]) < len(list(G.ENUMS[f["cls"]]))
+        return "enumcls-%s%s%s" % (X.mixin_of(G.ENUMS[f["cls"]]), "-by-value" if f["cls"] in G.BY_VALUE else "",
+                                   "-subset" if subset else "")
+    if t in ("seqeach", "set"):
+        return "%s(%s)" % (t, field_kind(f["item"])) if f.get("item") else t
+    if t == "mapkv":
+        return "mapkv(%s)" % field_kind(f["vf"])
+    if t == "num":
+        return "num-%s-%s" % (f["k"], f["s"])
+    if t in ("allof", "anyof", "oneof", "not", "tuple", "seqpos"):
+        subs = sorted(set(field_kind(g) for g in f.get("fs") or f.get("items")))
+        return "%s(%s)" % (t, ",".join(subs))
+    return t
+
+
+def run_extras(rep):
+    """Constructs of the quantifier outside the Coq model (harness/c08extras.py): observed-behaviour clauses only."""
+    jobs, meta = [], []
+    for name, src in XT.CASES:
+        base = {"kind": "extras", "case": name, "extras_src": src, "python": XT.PRELUDE + src}
+        try:
+            ns, out, sers = XT.run_case(src)
+        except Exception as ex:  # noqa  the case itself (class definitions / instances) no longer runs
+            rep.finding("C08/extras/%s/case-raises/%s" % (name, E.exn_name(ex)),
+                        "the classes / valid instances of case %s raise: %s" % (name, ex), base)
+            continue
+        rep.count("extras", 1, ("extras", name, out[0]))
+        if out[0] != "ok":
+            rep.finding("C08/extras/%s/export-raises/%s" % (name, out[1]), "structure_to_schema raises %s" % out[1], base)
+            continue
+        if not (is_jsonable(out[1]) and is_jsonable(out[2])):
+            rep.finding("C08/extras/%s/wf/not-json" % name, "the export is not a JSON document", base)
+            continue
+        doc = fix_dialect_py(json.loads(json.dumps(out[1])))
+        doc["definitions"] = fix_dialect_py(json.loads(json.dumps(out[2])))
+        ok = []
+        for i, j in enumerate(sers):
+            if isinstance(j, tuple) and j and j[0] == "raise":
+                rep.stat("extras", "serialize-raises:" + j[1])
+            elif is_jsonable(j):
+                ok.append((i, json.loads(json.dumps(j))))
+        jobs.append({"doc": doc, "instances": [j for _, j in ok]})
+        meta.append((name, base, ok))
+    try:
+        results = run_vt(jobs) if jobs else []
+    except Exception as ex:  # noqa
+        rep.broken("oracle:python3-vt(extras)", str(ex))
+        return
+    n = 0
+    for (name, base, ok), res in zip(meta, results):
+        if res["schema_error"] or res["refs_missing"]:
+            what = res["schema_error"]["message"] if res["schema_error"] else "unresolved " + ", ".join(res["refs_missing"])
+            rep.finding("C08/extras/%s/wf/%s" % (name, (res["schema_error"] or {"keyword": "$ref"})["keyword"]),
+                        "export of case %s is not a well-formed draft-4 schema with resolving $refs: %s" % (name, what), base)
+            continue
+        for (i, j), v, err in zip(ok, res["verdicts"], res["errors"]):
+            n += 1
+            if v is False:
+                rep.finding("C08/extras/%s/complete/%s" % (name, err["validator"]),
+                            "a valid instance of case %s, serialized, is rejected by the exported schema: %s" % (name, err["message"]),
+                            dict(base, instance_index=i, serialized=j, error=err))
+    rep.obligation("oracle:extras(StructureReference, inheritance, ImmutableStructure, mapper argument)", True,
+                   "%d cases, %d serialized instances validated" % (len(meta), n))
+
+
 def run(rep, tier):
     rnd = random.Random(core.seed() * 1000003 + 8)
-    n_env = 170 if tier == "quick" else 1400
+    n_env = 320 if tier == "quick" else 1400
+    import time
+    t0 = time.time()
+    timing = {}
+
+    def lap(name):
+        nonlocal t0
+        timing[name] = round(timing.get(name, 0) + time.time() - t0, 2)
+        t0 = time.time()
     proofs_ok, model_ok = core.standard_proof_obligations(rep, "C08", ["theories/Check/C08chk.vo"])
+    lap("build+proofs")
     pats = Pats()
-    envs, exports = [], []
+    envs = []
     for idx in range(n_env):
-        env = build_case(rnd, idx, tier)
-        envs.append(env)
-        exports.append(export(env))
+        envs.append(build_case(rnd, idx, tier))
+    lat_e, _ = enum_lattice(rnd, n_env, tier)
+    lat_r = ref_lattice(rnd, tier)
+    envs += lat_e + lat_r
+    events = []
+    for env in envs:
+        env.events = run_history(env)
+        events += env.events
     mutated = sum(1 for e in envs if e.required_mutated)
+    lap("generate+export")
+    rep.cov["streams"]["lattice:enum"] = {"evaluations": len(lat_e)}
+    rep.cov["streams"]["lattice:ref-graph-x-history"] = {"evaluations": len(lat_r)}
 
     # ---- oracle jobs: real export (dialect-translated) + real serializations (+ boundary documents)
     jobs, meta = [], []
-    for ei, (env, ex) in enumerate(zip(envs, exports)):
-        rep.count("export", 1, ("export", tuple(sorted(G.shape(fd["field"]) for fd in env.ast(env.top)["fields"])), ex[0]))
-        rep.stat("export", "outcome:" + (ex[0] if ex[0] == "ok" else ex[1]))
+    for vi, ev in enumerate(events):
+        env, ex = ev.env, ev.out
+        stream = "export" if not getattr(env, "lattice", None) else "export:" + env.lattice.split(":")[0]
+        rep.count(stream, 1, ("export", tuple(sorted(G.shape(fd["field"]) for fd in env.ast(ev.cls)["fields"])), ex[0]))
+        rep.stat(stream, "outcome:" + (ex[0] if ex[0] == "ok" else ex[1]))
+        rep.stat("history", "%s%s" % ("first" if ev.pos == 0 else "later", ":same-dict" if ev.pre else ""))
+        if any(c == ev.cls for c, _ in env.history[:ev.pos]):
+            rep.stat("history", "class-exported-before")
         if ex[0] != "ok":
             continue
         if not (is_jsonable(ex[1]) and is_jsonable(ex[2])):
             rep.finding("C08/wf/not-json", "the export is not a JSON document",
-                        {"python": env.source() + "\nprint(structure_to_schema(%s, {}))" % env.top, "env_index": ei})
+                        dict(replay_fields(ev), python=script(ev, "print(s, d)"), kind="wf"))
             continue
         doc = fix_dialect_py(dict(ex[1]))
         doc["definitions"] = fix_dialect_py(ex[2])
         sers, kinds = [], []
-        for kw, inst in env.top_instances:
-            try:
-                j = serialize_top(env, inst)
-            except Exception as e:  # noqa  the serializer's own failures are C05's subject
-                rep.stat("serialize", "raises:" + type(e).__name__)
-                continue
-            if not is_jsonable(j):
-                rep.stat("serialize", "not-json")
-                continue
-            sers.append((kw, inst, json.loads(json.dumps(j))))
-            kinds.append("ser")
+        if ev.cls == env.top:
+            for kw, inst in env.top_instances:
+                try:
+                    j = serialize_top(env, inst)
+                except Exception as e:  # noqa  the serializer's own failures are C05's subject
+                    rep.stat("serialize", "raises:" + type(e).__name__)
+                    continue
+                if not is_jsonable(j):
+                    rep.stat("serialize", "not-json")
+                    continue
+                sers.append((kw, inst, json.loads(json.dumps(j))))
+                kinds.append("ser")
         docs = [j for _, _, j in sers]
-        if exact_class(env) and docs:
-            for _ in range(6 if tier == "quick" else 10):
+        last_top = ev.cls == env.top and not any(c == env.top for c, _ in env.history[ev.pos + 1:])
+        if last_top and exact_class(env) and docs:
+            for _ in range(4 if tier == "quick" else 8):
                 docs.append(near(rnd, rnd.choice(docs[:len(sers)])))
+                kinds.append("near")
+            for w in boundary_docs(doc, docs[0], 24 if tier == "quick" else 60):
+                docs.append(w)
                 kinds.append("near")
             extra = dict(docs[0]) if isinstance(docs[0], dict) else None
             if extra is not None:      # always probe additionalProperties and a missing required key
@@ -1041,42 +1847,44 @@ def run(rep, tier):
                     docs.append({k: v for k, v in docs[0].items() if k != req[0]})
                     kinds.append("near")
         jobs.append({"doc": doc, "instances": docs})
-        meta.append((ei, sers, kinds))
+        meta.append((vi, sers, kinds))
+    lap("serialize")
     try:
         results = run_vt(jobs)
     except Exception as ex:  # noqa
         rep.broken("oracle:python3-vt", str(ex))
         results = []
+    lap("validator")
 
     vcases, wcases = [], []
     n_ser = n_near = n_exact_dis = 0
-    wf_fail, comp_fail = [], []
-    for (ei, sers, kinds), job, res in zip(meta, jobs, results):
-        env, ex = envs[ei], exports[ei]
-        src = env.source()
-        eff = env.effective_renames()
+    wf_fail, comp_fail, exact_fail = [], [], []
+    for (vi, sers, kinds), job, res in zip(meta, jobs, results):
+        ev = events[vi]
+        env, ex = ev.env, ev.out
+        eff = env.effective_renames() if ev.cls == env.top else {}
         if res["crash"]:
-            rep.broken("oracle:check_schema", res["crash"], {"python": src})
+            rep.broken("oracle:check_schema", res["crash"], {"python": script(ev)})
         wf_ok = res["schema_error"] is None and not res["refs_missing"]
         rep.count("wf", 1, ("wf", wf_ok, (res["schema_error"] or {}).get("keyword")))
         rep.stat("wf", "well-formed" if wf_ok else "ill-formed")
         if not wf_ok:
             wf_fail.append({"doc": job["doc"], "inst": None, "ctx": {"env": env, "eff": eff, "kwargs": []},
-                            "res": res, "src": src, "ex": ex})
+                            "res": res, "ev": ev})
         # documents are validated against the export with its well-formedness defects repaired (a validator has
         # no defined verdict on an ill-formed schema); the ill-formedness itself is reported above
         base, base_names = (job["doc"], []) if wf_ok else apply_repairs(job["doc"], WF_REPAIRS, {"env": env, "eff": eff})
         try:
             wdoc = {k: v for k, v in job["doc"].items() if k != "definitions"}
-            wcases.append("{| wc_doc := %s; wc_verdict := %s |}" % (emit_doc(wdoc, job["doc"]["definitions"], pats), E.blit(wf_ok)))
             dtext = emit_doc(wdoc, job["doc"]["definitions"], pats)
+            wcases.append("{| wc_doc := %s; wc_verdict := %s |}" % (dtext, E.blit(wf_ok)))
         except Exception as e:  # noqa
-            rep.broken("parse:export", "export outside the modelled syntax: %s" % e, {"python": src, "schema": ex[1]})
+            rep.broken("parse:export", "export outside the modelled syntax: %s" % e, {"python": script(ev), "schema": ex[1]})
             continue
         for di, (j, kind, verdict, err) in enumerate(zip(job["instances"], kinds, res["verdicts"], res["errors"])):
             if verdict is None:
                 if wf_ok:
-                    rep.broken("oracle:validator-crash", err["message"], {"python": src, "doc": j})
+                    rep.broken("oracle:validator-crash", err["message"], {"python": script(ev), "doc": j})
                 continue
             if wf_ok:
                 vcases.append((dtext, j, verdict))
@@ -1087,7 +1895,7 @@ def run(rep, tier):
                     rep.stat("complete", "no-verdict:ill-formed-patternProperties")   # reported as the wf finding
                 elif not verdict:
                     comp_fail.append({"doc": base, "inst": (j,), "ctx": {"env": env, "eff": eff, "kwargs": sers[di][0]},
-                                      "err": err, "src": src, "ex": ex, "kw": sers[di][0], "wf_ok": wf_ok})
+                                      "err": err, "ev": ev, "kw": sers[di][0], "wf_ok": wf_ok})
             elif wf_ok:
                 n_near += 1
                 acc, exn = deser_accepts(env, j)
@@ -1095,10 +1903,8 @@ def run(rep, tier):
                 rep.stat("exact", "validator:%s/deserializer:%s" % (verdict, acc))
                 if verdict and not acc:
                     n_exact_dis += 1
-                    rep.finding("C08/exact/%s" % exn,
-                                "a document admitted by the exported schema of %s is rejected by the Deserializer (%s)" % (env.top, exn),
-                                {"python": src + "\nprint(Deserializer(%s).deserialize(%r))" % (env.top, j),
-                                 "classes": env.asts[3:], "doc": j, "schema": ex[1], "definitions": ex[2], "kind": "exact"})
+                    exact_fail.append({"doc": job["doc"], "inst": (j,), "want": False, "exn": exn, "ev": ev,
+                                       "ctx": {"env": env, "eff": eff, "kwargs": [], "inst": j}})
     try:
         wkeys = classify(wf_fail, WF_REPAIRS, "C08/wf/",
                          lambda f: "C08/wf/%s/%s" % ((f["res"]["schema_error"] or {"keyword": "$ref"})["keyword"],
@@ -1107,27 +1913,41 @@ def run(rep, tier):
         ckeys = classify(comp_fail, COMPLETE_REPAIRS, "C08/complete/",
                          lambda f: "C08/complete/%s/%s" % (f["err"]["validator"], "nested" if len(f["err"]["instance_path"]) > 1 else "top"))
         still = run_vt([{"doc": f["doc"], "instances": [f["inst"][0]]} for f in comp_fail]) if comp_fail else []
+        # exactness: explained by a repair when the repaired (stricter) schema rejects; otherwise keyed by the culprit field
+        ekeys = classify(exact_fail, EXACT_REPAIRS, "C08/exact/",
+                         lambda f: "C08/exact/%s/%s" % (f["exn"], exact_culprit(f["ev"].env, f["inst"][0], f["exn"])))
     except Exception as ex:  # noqa
         rep.broken("oracle:python3-vt(classification)", str(ex))
-        wkeys, ckeys, still = [], [], []
+        wkeys, ckeys, still, ekeys = [], [], [], []
+    for f, key in zip(exact_fail, ekeys):
+        ev, j = f["ev"], f["inst"][0]
+        env, ex = ev.env, ev.out
+        rep.finding(key, "a document admitted by the exported schema of %s is rejected by the Deserializer (%s)" % (env.top, f["exn"]),
+                    dict(replay_fields(ev), python=script(ev, "print(Deserializer(%s).deserialize(%r))" % (env.top, j)),
+                         doc=j, schema=ex[1], definitions=ex[2], kind="exact"))
     for f, key in zip(wf_fail, wkeys):
-        env, ex, res = f["ctx"]["env"], f["ex"], f["res"]
+        ev, res = f["ev"], f["res"]
+        env, ex = ev.env, ev.out
         what = res["schema_error"]["message"] + " at " + "/".join(res["schema_error"]["path"]) if res["schema_error"] \
             else "unresolved $ref " + ", ".join(res["refs_missing"])
-        rep.finding(key, "export of %s is not a well-formed draft-4 schema with resolving $refs: %s" % (env.top, what),
-                    {"python": f["src"] + "\ns, d = structure_to_schema(%s, {})\nprint(s, d)" % env.top,
-                     "schema": ex[1], "definitions": ex[2], "error": res["schema_error"], "unresolved": res["refs_missing"], "kind": "wf"})
+        rep.finding(key, "export of %s is not a well-formed draft-4 schema with resolving $refs: %s" % (ev.cls, what),
+                    dict(replay_fields(ev), python=script(ev, "print(s, d)"), schema=ex[1], definitions=ex[2],
+                         error=res["schema_error"], unresolved=res["refs_missing"], kind="wf"))
     for f, key, st in zip(comp_fail, ckeys, still):
         if not f["wf_ok"] and st["verdicts"] and st["verdicts"][0] is True:
             continue          # rejected only because of the ill-formed keyword (reported as a wf finding)
-        env, ex, err, kw = f["ctx"]["env"], f["ex"], f["err"], f["kw"]
+        ev, err, kw = f["ev"], f["err"], f["kw"]
+        env, ex = ev.env, ev.out
         rep.finding(key, "a valid instance of %s, serialized, is rejected by its own exported schema: %s (%s at %s)" % (
             env.top, err["message"], err["validator"], "/".join(err["schema_path"])),
-            {"python": f["src"] + "\nx = %s(%s)\nprint(serialize(x))\nprint(structure_to_schema(%s, {}))" % (
-                env.top, ", ".join("%s=%s" % (k, G.py_src(v)) for k, v in kw), env.top),
-             "classes": env.asts[3:], "kwargs": kw, "serialized": f["inst"][0], "schema": ex[1],
-             "definitions": ex[2], "error": err, "kind": "complete"})
-    rep.obligation("oracle:well-formed+refs", True, "%d exports checked by Draft4Validator.check_schema" % len(results))
+            dict(replay_fields(ev), python=script(ev, "x = %s(%s)\nprint(serialize(x))\nprint(s, d)" % (
+                env.top, ", ".join("%s=%s" % (k, G.py_src(v)) for k, v in kw))),
+                 kwargs=kw, serialized=f["inst"][0], schema=ex[1], definitions=ex[2], error=err, kind="complete"))
+    lap("deserializer+classification")
+    run_extras(rep)
+    lap("extras")
+    rep.obligation("oracle:well-formed+refs", True, "%d exports (%d environments) checked by Draft4Validator.check_schema" % (
+        len(results), len(envs)))
     rep.obligation("oracle:serialized-valid-instances-validate", True, "%d serialized valid instances validated" % n_ser)
     rep.obligation("oracle:exact-subfragment", True, "%d boundary documents, %d admitted-but-rejected" % (n_near, n_exact_dis))
     rep.cov["streams"].setdefault("export", {})["required_list_mutated_in_place"] = mutated
@@ -1135,14 +1955,18 @@ def run(rep, tier):
     # ---- correspondences inside Coq
     if model_ok:
         shards = []
-        per = 40
+
+        def chunk_size(n, target, cap):
+            """about `target` shards (one coqc start-up each), at most `cap` cases per shard"""
+            return max(1, min(cap, -(-n // target)))
         stexts = []
-        for env, ex in zip(envs, exports):
+        for ev in events:
             try:
-                stexts.append(scase_text(env, ex, pats))
+                stexts.append(scase_text(ev, pats))
             except Exception as e:  # noqa
                 stexts.append(None)
         sidx = [i for i, t in enumerate(stexts) if t is not None]
+        per = chunk_size(len(sidx), 10, 120)
         for s in range(0, len(sidx), per):
             chunk = sidx[s:s + per]
             body = "Definition cases : list scase := %s.\n" % E.lst(["\n " + stexts[i] for i in chunk])
@@ -1151,14 +1975,23 @@ def run(rep, tier):
             shards.append(("S", chunk, body, 4))
         # serializer stream
         rtexts = []
-        for ei, sers, kinds in meta:
-            env = envs[ei]
+        seen_inst = set()
+        for vi, sers, kinds in meta:
+            env = events[vi].env
             for kw, inst, j in sers:
+                if id(inst) in seen_inst:         # the same instance under a later export of the same class
+                    continue
+                seen_inst.add(id(inst))
+                env.effective_renames()
+                if any(('"%s"' % n) in json.dumps(kw) for n in env.path_dependent):
+                    rep.stat("corr:serializer", "skipped:path-dependent-renames")
+                    continue
                 try:
                     st = reify_stored(inst)
-                    rtexts.append((ei, kw, j, rcase_text(env, st[2], j)))
+                    rtexts.append((vi, kw, j, rcase_text(env, st[2], j)))
                 except Exception:  # noqa
                     pass
+        per = chunk_size(len(rtexts), 10, 150)
         for s in range(0, len(rtexts), per):
             chunk = rtexts[s:s + per]
             body = "Definition cases : list rcase := %s.\n" % E.lst(["\n " + t[3] for t in chunk])
@@ -1166,7 +1999,11 @@ def run(rep, tier):
                 body += "Eval vm_compute in (indices_where %s cases 0).\n" % fn
             shards.append(("R", chunk, body, 2))
         # validator stream
-        vper = 120
+        vcap = 2500 if tier == "quick" else 15000
+        if len(vcases) > vcap:      # the model-vs-validator correspondence does not need every document
+            step = len(vcases) / float(vcap)
+            vcases = [vcases[int(i * step)] for i in range(vcap)]
+        vper = chunk_size(len(vcases), 10, 400)
         for s in range(0, len(vcases), vper):
             chunk = vcases[s:s + vper]
             items = []
@@ -1176,13 +2013,16 @@ def run(rep, tier):
             body = "Definition cases : list vcase := %s.\n" % E.lst(["\n " + i for i in items])
             body += "Eval vm_compute in (indices_where vmismatch cases 0).\n"
             shards.append(("V", chunk, body, 1))
-        for s in range(0, len(wcases), 200):
-            chunk = wcases[s:s + 200]
+        wper = chunk_size(len(wcases), 2, 400)
+        for s in range(0, len(wcases), wper):
+            chunk = wcases[s:s + wper]
             body = "Definition cases : list wcase := %s.\n" % E.lst(["\n " + i for i in chunk])
             body += "Eval vm_compute in (indices_where wmismatch cases 0).\n"
             shards.append(("W", list(range(s, s + len(chunk))), body, 1))
+        lap("emit-coq-cases")
         try:
             outs = coq_eval([(b, n) for _, _, b, n in shards], "c08")
+            lap("coq-eval(%d shards)" % len(shards))
         except RuntimeError as ex:
             rep.broken("correspondence:coq-eval", str(ex))
             outs = None
@@ -1202,28 +2042,33 @@ def run(rep, tier):
                 else:
                     wm += [chunk[i] for i in o[0]]
             concrete = any(not v["no_input"] for v in rep.violations)
+            if os.environ.get("C08_DEBUG"):
+                for vi, kw, j, _ in rm[:12]:
+                    print("DEBUG serializer mismatch:", class_src(events[vi].env.ast(events[vi].env.top)), kw, "->", j)
+                for i in sm[:12]:
+                    print("DEBUG to_schema mismatch:", events[i].env.source()[-900:], events[i].env.history, events[i].pos, events[i].out)
             rep.count("corr:to_schema", len(sidx))
             rep.count("corr:serializer", len(rtexts))
             rep.count("corr:valid4", len(vcases))
             rep.count("corr:wf4", len(wcases))
             rep.cov["streams"]["corr:serializer"]["unmodelled_skipped"] = len(run_)
             rep.cov["streams"]["corr:to_schema"]["model_predicts_clean"] = len(clean)
-            rep.obligation("correspondence:to_schema", not sm, "%d classes, %d mismatches" % (len(sidx), len(sm)))
+            rep.obligation("correspondence:to_schema", not sm, "%d exports, %d mismatches" % (len(sidx), len(sm)))
             rep.obligation("correspondence:serializer", not rm, "%d instances (%d outside the modelled serializer), %d mismatches" % (
                 len(rtexts), len(run_), len(rm)))
             rep.obligation("correspondence:valid4-vs-jsonschema", not vm, "%d (schema, document) pairs, %d mismatches" % (len(vcases), len(vm)))
             rep.obligation("correspondence:wf4-vs-check_schema", not wm, "%d exports, %d mismatches" % (len(wcases), len(wm)))
             rep.obligation("characterisation:clean-implies-wf (evaluated)", not cnw, "%d clean classes" % len(clean))
             if sm and not concrete:
-                i = sm[0]
+                ev = events[sm[0]]
                 rep.broken("correspondence:to_schema",
-                           "model (Schema/ToSchema.v) and structure_to_schema differ on %d generated classes" % len(sm),
-                           {"python": envs[i].source() + "\nprint(structure_to_schema(%s, {}))" % envs[i].top,
-                            "observed": exports[i]})
+                           "model (Schema/ToSchema.v) and structure_to_schema differ on %d exports (first: %s, history %r)" % (
+                               len(sm), ev.cls, ev.env.history[:ev.pos + 1]),
+                           dict(replay_fields(ev), python=script(ev, "print(s, d)"), observed=ev.out))
             if rm and not concrete:
-                ei, kw, j, _ = rm[0]
+                vi, kw, j, _ = rm[0]
                 rep.broken("correspondence:serializer", "model serializer and serialize() differ on %d instances" % len(rm),
-                           {"python": envs[ei].source(), "kwargs": kw, "serialized": j})
+                           {"python": events[vi].env.source(), "kwargs": kw, "serialized": j})
             if vm and not concrete:
                 dtext, j, verdict = vm[0]
                 rep.broken("correspondence:valid4-vs-jsonschema",
@@ -1235,10 +2080,10 @@ def run(rep, tier):
                            {"doc_term": wcases[wm[0]][:3000]})
             if cnw:
                 rep.broken("characterisation:clean-implies-wf", "schema_clean holds but wf_doc fails on %d classes" % len(cnw),
-                           {"python": envs[cnw[0]].source()})
-    if exports:
-        for env, ex in list(zip(envs, exports))[:2]:
-            rep.sample({"classes": env.source()[-700:], "export": repr(ex)[:600]})
+                           {"python": events[cnw[0]].env.source()})
+    rep.cov["timing_s"] = timing
+    for ev in events[:2]:
+        rep.sample({"classes": ev.env.source()[-700:], "history": ev.env.history, "export": repr(ev.out)[:600]})
     if not proofs_ok:
         from harness.props.c17 import broken_build
         broken_build(rep)
@@ -1246,37 +2091,62 @@ def run(rep, tier):
         "re.match / re.search are oracles (Section variables), instantiated per case by tables filled from the real re module",
         "independent validator: jsonschema.Draft4Validator under python3-vt (separate process, JSON exchange)",
         "a field-wrapper class is paired with serialize(compact=True), as documented; every other class with serialize()",
-        "structure_to_schema edits the class's _required list in place; the harness restores it after every export",
+        "the by-value flag of an Enum field is declared uniformly per enum class (classes *V of harness/c08enums.py)",
     ]
     return rep.finish(
-        rule="cases = class environments (1-3 generated classes + fixed Inner/Sub/Other; fields from a weighted grammar over "
-             "the schema-mappable vocabulary incl. a few unmappable ones; optional rename mappers, defaults, required subsets), "
+        rule="cases = class environments (1-4 generated classes + fixed Inner/Sub/Other; fields from a weighted grammar over "
+             "the schema-mappable vocabulary incl. a few unmappable ones, 10 enum classes (plain, int/str/float mix-ins, falsy "
+             "values, by-value); optional rename mappers, defaults, required subsets, reference chains), each with an export "
+             "HISTORY (first / repeated / parts first / interleaved / one shared definitions dict) all of whose exports are "
+             "judged; + deterministic lattices: enum class x position, reference graph x linking construct x history; "
              "3 valid instances each, 6-10 boundary documents on the exact sub-fragment; distinct = distinct (field shapes, outcome)")
 
 
 def replay(obj):
     """Re-run a replay on the implementation + the independent validator alone."""
-    src = obj.get("python")
-    if not src:
+    if obj.get("kind") == "extras":
+        ns, out, sers = XT.run_case(obj["extras_src"])
+        print("export:", out)
+        if out[0] != "ok" or not (is_jsonable(out[1]) and is_jsonable(out[2])):
+            print("required: a JSON schema document")
+            return 1
+        doc = fix_dialect_py(json.loads(json.dumps(out[1])))
+        doc["definitions"] = fix_dialect_py(json.loads(json.dumps(out[2])))
+        ok = [json.loads(json.dumps(j)) for j in sers if not (isinstance(j, tuple) and j and j[0] == "raise") and is_jsonable(j)]
+        res = run_vt([{"doc": doc, "instances": ok}])[0]
+        print("serialized:", ok)
+        print("check_schema:", res["schema_error"], "unresolved refs:", res["refs_missing"], "verdicts:", res["verdicts"])
+        print("required: well-formed, $refs resolve, every serialization validates")
+        return 1 if (res["schema_error"] or res["refs_missing"] or any(v is False for v in res["verdicts"])) else 0
+    if not obj.get("classes_src"):
         print("nothing to replay:", obj.get("broken"), obj.get("detail", "")[:500])
         return 2
-    ns = {}
-    exec(G.IMPORTS + "from typedpy import mappers, structure_to_schema, serialize, Deserializer\n", ns)
-    body = src.split("\nprint(")[0].split("\nx = ")[0].split("\ns, d = ")[0]
-    exec(body, ns)
-    top = [c for c in ns if re.fullmatch(r"K\d+_\d+", c)]
-    top = sorted(top, key=lambda n: int(n.split("_")[1]))[-1]
+    pre = G.IMPORTS + "from typedpy import mappers, structure_to_schema, serialize, Deserializer\n" + X.IMPORT
+
+    def play(src, history):
+        ns = {}
+        exec(pre, ns)
+        exec(src, ns)
+        s = d = None
+        for i, (cname, shared) in enumerate(history):
+            s, d = ns["structure_to_schema"](ns[cname], d if (shared and i and isinstance(d, dict)) else {})
+        return ns, s, d
+
+    for src, hist in obj.get("prelude") or []:
+        play(src, hist)
+    print("history    :", obj["history"])
+    ns, schema, defs = play(obj["classes_src"], obj["history"])
+    top = obj["target"]
     cls = ns[top]
-    req0 = list(cls.__dict__.get("_required", []))
-    schema, defs = ns["structure_to_schema"](cls, {})
-    if isinstance(cls.__dict__.get("_required"), list):
-        cls.__dict__["_required"][:] = req0
     print("export     :", json.dumps(schema, default=str)[:1500])
     print("definitions:", json.dumps(defs, default=str)[:1500])
+    kind = obj.get("kind")
+    if not (is_jsonable(schema) and is_jsonable(defs)):
+        print("required: a JSON document")
+        return 1
     doc = fix_dialect_py(json.loads(json.dumps(schema)))
     doc["definitions"] = fix_dialect_py(json.loads(json.dumps(defs)))
     insts = []
-    kind = obj.get("kind")
     if kind == "complete":
         kw = {k: G.unreify(_tup(v), {n: ns[n] for n in ns if isinstance(ns[n], type)}) for k, v in obj["kwargs"]}
         inst = cls(**kw)
@@ -1296,6 +2166,9 @@ def replay(obj):
         print("required: the serialization validates")
         return 1 if res["verdicts"] and res["verdicts"][0] is False else 0
     if kind == "exact":
+        r = S.Context.resolved.__get__(type("X", (), {"classes": {top: cls}})())(top)
+        if len(r["field_names"]) == 1 and r["required"] == r["field_names"] and not r["additional"]:
+            ns["Structure"].set_compact_deserialization_default(True)     # a field wrapper: the export is the compact form
         try:
             ns["Deserializer"](cls).deserialize(copy.deepcopy(obj["doc"]))
             acc = True
